@@ -269,7 +269,7 @@ theorem source_iteration_is_model (s : Schema) (D : Nat) (fresh : Target)
     (hN : ∀ st, tcToGen (s.transcode (stateKeys st) fresh) = some (tcN st))
     (hU : ∀ st, tcUToGen (s.transcode (stateKeys st) .unit) = some (tcU st)) :
     (∀ (fuel : Nat) (it : IterSt), it.state.length = D →
-      (runLoop (NodeIter.next_body D tcN tcU) fuel (itToGen it)).map stepOfP =
+      (runLoop (NodeIter.next_body D tcN tcU) fuel (itToGen it)).map iterStepOfP =
         (it.next s D fresh fuel).map IterStep.erase) ∧
     (∀ (n : Nat) (it : IterSt), it.state.length = D →
       innerPolled itemOf (nextG D tcN tcU) n (itToGen it) = it.poll s D fresh n) ∧
